@@ -81,6 +81,7 @@ type Rec struct {
 	Partition string
 	Payload   []byte
 	DRR       appencryption.DataRowRecord // private deep copy
+	Orig      *appencryption.DataRowRecord // the object Encrypt returned, as the caller still holds it
 	JSON      []byte
 	IKID      string
 	IKCreated int64
@@ -102,6 +103,7 @@ type Event struct {
 	Rec       *Rec  // encrypt: the new record; decrypt: the record read
 	Err       error
 	Out       []byte                       // decrypt: the returned plaintext
+	Changed  string // a record object returned by an earlier encrypt differs from what it was when returned
 	ArgAfter  *appencryption.DataRowRecord // decrypt: the record the caller handed in, as it looks after the call
 	Detail    string
 	FreshSess bool
@@ -115,6 +117,7 @@ type Event struct {
 // World is the state of one generated history.
 type World struct {
 	ExtClockAhead time.Duration // see ExternalRotate
+	ExtSuffix     *string       // see ExternalRotate: the other process's region suffix when it is not ours
 	ownBacking    bool
 
 	T       *rapid.T
@@ -431,9 +434,22 @@ func (w *World) end(ev *Event) {
 	ev.CallTo, ev.AEADTo, ev.SecretTo, ev.LiveAfter = w.Log.Len(), w.AEAD.Len(), w.Secrets.Count(), w.Secrets.LiveCount()
 	w.Events = append(w.Events, ev)
 	w.Labels[ev.Kind]++
+	ev.Changed = w.ChangedRecord()
 	if w.OnOp != nil {
 		w.OnOp(ev)
 	}
+}
+
+// ChangedRecord names a record object handed out by an earlier Encrypt that no longer equals the copy taken
+// when it was returned: a returned record belongs to the caller, who may serialise it at any later time.
+func (w *World) ChangedRecord() string {
+	for _, r := range w.Recs {
+		if r.Orig != nil && !DRREqual(*r.Orig, r.DRR) {
+			now, _ := json.Marshal(r.Orig)
+			return fmt.Sprintf("rec%d, returned by %s as %s, now reads %s", r.ID, r.Proc, r.JSON, now)
+		}
+	}
+	return ""
 }
 
 // ---- session handling -------------------------------------------------------------
@@ -651,7 +667,7 @@ func (w *World) Encrypt(s *Sess, payload []byte, viaStore bool, fresh bool) (*Ev
 	var rec *Rec
 	if err == nil && drr != nil {
 		s.Encrypts++
-		rec = &Rec{ID: len(w.Recs), Partition: s.Partition, Payload: orig, DRR: CloneDRR(*drr), BornAt: ev.At, Proc: s.Proc.Name, SessID: s.ID, ViaStore: viaStore}
+		rec = &Rec{ID: len(w.Recs), Partition: s.Partition, Payload: orig, DRR: CloneDRR(*drr), Orig: drr, BornAt: ev.At, Proc: s.Proc.Name, SessID: s.ID, ViaStore: viaStore}
 		rec.JSON, _ = json.Marshal(drr)
 		if drr.Key != nil && drr.Key.ParentKeyMeta != nil {
 			rec.IKID, rec.IKCreated = drr.Key.ParentKeyMeta.ID, drr.Key.ParentKeyMeta.Created
@@ -764,6 +780,10 @@ func (w *World) ExternalRotate(part string, newSK bool) bool {
 	// ExtClockAhead: the other process's host clock runs ahead of ours
 	now := verifhook.Now().Add(w.ExtClockAhead).Unix()
 	skID, ikID := w.SKID(), w.IKID(part)
+	if w.ExtSuffix != nil {
+		// the other process belongs to a deployment with another (or no) region suffix: its keys have their own ids
+		skID, ikID = kit.RefSKID(w.Service, w.Product, *w.ExtSuffix), kit.RefIKID(part, w.Service, w.Product, *w.ExtSuffix)
+	}
 	var sk []byte
 	var skCreated int64
 	latestSK := w.Store.Latest(skID)
